@@ -66,6 +66,7 @@ def snapshot(tf, with_data):
             out[ch.path] = d
     st_ = tf.file_status
     out['status'] = bool(st_.incomplete_final_segment)
+    out['tdms_version'] = tf.tdms_version
     return out
 
 
